@@ -39,6 +39,8 @@ Init == \/ fam = "rt" /\ par \in {<<np, ni, fs, na, nunk>> : np \in 0..2, ni \in
         \/ fam = "bad-scan" /\ par = <<>>
         \/ fam = "scan" /\ par \in {<<w, sc>> : w \in 0..13, sc \in 0..20} \cup {<<w, sc>> : w \in {32, 33, 252, 255, 256}, sc \in {28, 32, 36, 40, 252, 256, 260}}     \* the whole (width, scan-line) relation on a grid
         \/ fam = "bad-pal" /\ par \in {<<1>>, <<0>>}
+        \* header totals that disagree with the contents: <<animations, frame total delta, layer total delta>>
+        \/ fam = "bad-totals" /\ par \in {<<na, df, dl>> : na \in 0..2, df \in {0, 1, 2, 6}, dl \in {0, 1, 2, 6}} /\ (par[2] # 1 \/ par[3] # 1)       \* delta = value - 1
         \/ fam = "bad-layers" /\ par \in {<<n, extra>> : n \in {0, 1, 2, 126, 127}, extra \in {1, 2, 128, 256, 512}}
 Next == UNCHANGED vars
 Spec == Init /\ [][Next]_vars
@@ -48,15 +50,18 @@ Value == CASE fam = "rt" -> LET np == par[1]  ni == par[2]  fs == par[3]  na == 
            [] fam = "bad-scan" -> V(1, << Img(5, FALSE, 0) >>, <<>>)
            [] fam = "scan" -> V(1, << [Img(par[1], TRUE, 0) EXCEPT !.scan = par[2]] >>, <<>>)
            [] fam = "bad-pal" -> V(par[1], << Img(5, TRUE, par[1]) >>, <<>>)
+           [] fam = "bad-totals" -> V(1, << Img(8, TRUE, 0) >>, [a \in 1..par[1] |-> Anim(FrameSets[a + 2], a - 1)])
            [] OTHER -> V(0, <<>>, << Anim(<< F(par[1], 0, 0, par[2]) >> , 0) >>)
 \* the good families satisfy the cross-field rules, the bad ones violate them (so that the writer's refusal is really exercised)
-RulesAsIntended == RulesHold(Value) <=> (fam \in {"rt", "rand"} \/ (fam = "scan" /\ par[2] = RoundUp4(par[1])))
+RulesAsIntended == RulesHold(Value) <=> (fam \in {"rt", "rand", "bad-totals"} \/ (fam = "scan" /\ par[2] = RoundUp4(par[1])))
 \* the header totals equal the contents, and the encoding has the length the layout description implies
 TotalsMatch == LET e == Encode(Value) IN Len(e) >= 8 + 1048 * Len(Value.palettes) + 4 + 20 * Len(Value.images) + 16
 EncodingDeterminedByValue == Encode(Value) = EncodeWith(Value, PaletteHeaderCanon)
 NonCanonicalHeaderSameLength == Len(EncodeWith(Value, PaletteHeaderWith(6, 9, 1022))) = Len(Encode(Value))
 Export == CASE fam = "rt" -> Emit(<<"rt", par>>, << RT(Value, PaletteHeaderCanon), RT(Value, PaletteHeaderWith(6, 9, 1022)), WriteCase(Value) >>)
             [] fam = "rand" -> Emit(<<"rand", Seed, par>>, << RT(Value, PaletteHeaderCanon), WriteCase(Value) >>)
+            [] fam = "bad-totals" -> LET ft1 == FrameTotal(Value) + par[2]  lt1 == LayerTotal(Value) + par[3]  ft == ft1 - 1  lt == lt1 - 1 IN
+                 (ft1 >= 1 /\ lt1 >= 1) => Emit(<<fam, par>>, << [op |-> "prt_read", input |-> EncodeTotals(Value, ft, lt), expect |-> "refuse"], ReadCase(Value) >>)
             [] fam \in {"scan", "bad-scan", "bad-pal"} -> Emit(<<fam, par>>, << WriteCase(Value), ReadCase(Value) >>)
             [] OTHER -> Emit(<<fam, par>>, << WriteCase(Value) >>)
 ====
